@@ -1,4 +1,5 @@
 import MithrilModel.CertModel
+import MithrilModel.PhiModel
 import MithrilModel.PmInj
 /-!
 # C04 — Certificates are tamper-evident and survive the wire unchanged
@@ -112,7 +113,7 @@ theorem C04_meta_sealed_at (m : Meta) (t' : Int)
 
 /-- protocol parameters, compared at the protocol's fixed-point precision (U8F24 pattern) -/
 theorem C04_params (p p' : Params) (hk : p.k < 2^64) (hk' : p'.k < 2^64) (hm : p.m < 2^64) (hm' : p'.m < 2^64)
-    (hf : p.phiFixed < 2^32) (hf' : p'.phiFixed < 2^32)
+    (hf : PhiOk p.phi) (hf' : PhiOk p'.phi)
     (hh : paramsHash H p = paramsHash H p') : p = p' ∨ Collision H := by
   rcases hexH_eq H _ _ hh with hp | hc
   · left
@@ -121,13 +122,13 @@ theorem C04_params (p p' : Params) (hk : p.k < 2^64) (hk' : p'.k < 2^64) (hm : p
     have h2 := List.append_inj h1.2 (by rfl)
     have ek := u64be_inj hk hk' h1.1
     have em := u64be_inj hm hm' h2.1
-    have ef := u32be_inj hf hf' h2.2
+    have ef := phiSeg_inj hf hf' h2.2
     cases p; cases p'; simp_all
   · exact Or.inr hc
 
 theorem C04_meta_params (m : Meta) (p' : Params)
-    (hb : m.params.k < 2^64 ∧ m.params.m < 2^64 ∧ m.params.phiFixed < 2^32)
-    (hb' : p'.k < 2^64 ∧ p'.m < 2^64 ∧ p'.phiFixed < 2^32)
+    (hb : m.params.k < 2^64 ∧ m.params.m < 2^64 ∧ PhiOk m.params.phi)
+    (hb' : p'.k < 2^64 ∧ p'.m < 2^64 ∧ PhiOk p'.phi)
     (hflat : (metaSegs H m).flatten = (metaSegs H { m with params := p' }).flatten) :
     m.params = p' ∨ Collision H := by
   have := C04_meta_single_segment H m { m with params := p' } 2 rfl (by agree_meta) hflat
@@ -202,5 +203,20 @@ example : PmInj.WF [("snapshot_digest".toList, "00ab".toList), ("next_aggregate_
 
 /-- non-vacuity: the hypotheses of the epoch statement are met by a concrete certificate -/
 example : (7 : Nat) < 2^64 ∧ (8 : Nat) < 2^64 := by decide
+
+/-! ### `phi_f : f64` → what is hashed and compared (`PhiModel`) -/
+
+/-- every double enters the hash through a well-formed `Phi` (so `C04_params` applies to it) -/
+theorem C04_phi_ok (bits : Nat) (h : bits < 2 ^ 64) : PhiOk (PhiModel.phiOfF64 bits) := PhiModel.phiOfF64_ok bits h
+
+/-- FIXED FINDING: before the repair the conversion wrapped (outside debug builds): 256.2 and 0.2 gave one pattern -/
+theorem C04_phi_wrap_counterexample_before_repair :
+    PhiModel.u8f24Wrapped 0x4070033333333333 = PhiModel.u8f24Wrapped 0x3FC999999999999A := PhiModel.wrap_counterexample
+
+/-- … now 256.2, a NaN and a negative value are hashed on their own bits, 0.2 on its pattern -/
+theorem C04_phi_repaired :
+    PhiModel.phiOfF64 0x4070033333333333 = .raw 0x4070033333333333 ∧ PhiModel.phiOfF64 0x3FC999999999999A = .fixed 3355443 ∧
+    PhiModel.phiOfF64 0x7FF8000000000000 = .raw 0x7FF8000000000000 ∧ PhiModel.phiOfF64 0xBFD3333333333333 = .raw 0xBFD3333333333333 :=
+  PhiModel.wrap_repaired
 
 end C04
